@@ -7,30 +7,29 @@ From P9 Require Import Gen.GenReplyTypes Model.Tags Proofs.TagsProofsAlloc Proof
 Import ListNotations.
 Open Scope N_scope.
 
-Tactic Notation "simp_st" := cbn [h_out with_out h_sel h_shut h_ctx h_closed h_panicked h_running fst snd].
-Tactic Notation "simp_st" "in" hyp(H) := cbn [h_out with_out h_sel h_shut h_ctx h_closed h_panicked h_running fst snd] in H.
-
 (* ---------------------------------------------------------------- running is never regained *)
 
 Lemma running_step : forall st e, h_running (fst (hstep st e)) = true -> h_running st = true.
 Proof.
-  intros st e. step_cases st e; try (simp_st; tauto).
+  intros st e. step_cases st e; try (unfold h_running; simp_st; tauto).
   unfold h_running in *. intros Hr.
-  destruct (h_closed st) eqn:Ec; [rewrite (H2 eq_refl) in Hr; discriminate|].
-  rewrite <- H1. destruct (h_panicked st'); [rewrite andb_false_r in Hr; discriminate | reflexivity].
+  destruct (h_closed st) eqn:Ec; [rewrite (H4 eq_refl) in Hr; discriminate|].
+  rewrite <- H3. destruct (h_panicked st'); [rewrite andb_false_r in Hr; discriminate | reflexivity].
 Qed.
 
 (* ---------------------------------------------------------------- the history behind every outstanding tag *)
 
 Definition no_resp (t : N) (evs : list hevent) : Prop := forall r, ~ In (EResp t r) evs.
 
-(* call c's request was taken after [evs1], written with tag t, and no reply
-   with tag t has been taken since *)
+(* in state st the loop is running and allocateTag would return t *)
+Definition req_allocates (st : hstate) (t : N) : Prop :=
+  h_running st = true /\ allocate (h_out st) (h_sel st) = inl t.
+
+(* call c's request was taken after [evs1] and given tag t, and no reply with
+   tag t has been taken since *)
 Definition issued_at (evs : list hevent) (t c : N) : Prop :=
   exists evs1 evs2 mt,
-    evs = evs1 ++ EReq c mt true :: evs2 /\
-    snd (hstep (fst (run evs1)) (EReq c mt true)) = [OFrame t c mt] /\
-    no_resp t evs2.
+    evs = evs1 ++ EReq c mt :: evs2 /\ req_allocates (fst (run evs1)) t /\ no_resp t evs2.
 
 Definition hist_inv (evs : list hevent) : Prop :=
   h_running (fst (run evs)) = true ->
@@ -39,12 +38,15 @@ Definition hist_inv (evs : list hevent) : Prop :=
 Lemma issued_at_snoc : forall evs t c e,
   issued_at evs t c -> (forall r, e <> EResp t r) -> issued_at (evs ++ [e]) t c.
 Proof.
-  intros evs t c e (evs1 & evs2 & mt & -> & Hf & Hn) Hne.
+  intros evs t c e (evs1 & evs2 & mt & Heq & Hf & Hn) Hne. subst evs.
   exists evs1, (evs2 ++ [e]), mt. split; [|split; [assumption|]].
   - rewrite <- app_assoc. reflexivity.
   - intros r Hin. apply in_app_or in Hin as [Hin|[Hin|[]]]; [exact (Hn r Hin)|].
     exact (Hne r Hin).
 Qed.
+
+Lemma flag_event_not_resp : forall e t r, is_flag_event e = true -> e <> EResp t r.
+Proof. intros e t r He Heq. subst e. discriminate. Qed.
 
 Lemma hist_inv_all : forall evs, hist_inv evs.
 Proof.
@@ -52,55 +54,101 @@ Proof.
   - intros _ t c Hl. cbn in Hl. rewrite lookup_empty in Hl. discriminate.
   - unfold hist_inv in *. rewrite state_snoc. intros Hrun t c Hl.
     pose proof (running_step _ _ Hrun) as Hrun0. specialize (IH Hrun0).
-    revert Hrun Hl. step_cases (fst (run evs)) e; intros Hrun Hl.
+    revert Hrun Hl. step_cases (fst (run evs)) e; intros Hrun Hl; simp_st in Hl.
     + (* idle *)
       apply issued_at_snoc; [apply IH; assumption|].
-      intros r ->. (* an EResp that was idle: unknown tag, so t is not its tag *)
+      intros r Heq. subst e. (* an EResp that was idle has an unknown tag, so t is not its tag *)
       cbn [hstep] in Ho. rewrite Hrun0, Hl in Ho. discriminate.
     + apply issued_at_snoc; [apply IH; assumption | discriminate].
-    + (* a frame was written with tag t0 for call c0 *)
-      simp_st in Hl. destruct (N.eq_dec t0 t) as [->|Hne].
-      * rewrite lookup_insert in Hl. inversion Hl; subst c0.
-        exists evs, [], mt. split; [reflexivity|]. split; [|intros r []].
-        cbn [hstep]. rewrite Hrun0, H0. reflexivity.
+    + (* a request was taken and given tag t0 *)
+      destruct (N.eq_dec t0 t) as [Heq|Hne].
+      * subst t0. rewrite lookup_insert in Hl. inversion Hl; subst c0.
+        exists evs, [], mt. split; [reflexivity|]. split; [split; assumption | intros r []].
       * rewrite lookup_insert_ne in Hl by assumption.
         apply issued_at_snoc; [apply IH; assumption | discriminate].
-    + simp_st in Hl. destruct (N.eq_dec t0 t) as [->|Hne].
-      * rewrite lookup_delete in Hl. discriminate.
-      * rewrite lookup_delete_ne, lookup_insert_ne in Hl by assumption.
+    + apply issued_at_snoc; [apply IH; assumption | discriminate].
+    + apply issued_at_snoc; [apply IH; assumption | discriminate].
+    + destruct (N.eq_dec (w_tag w) t) as [Heq|Hne].
+      * rewrite Heq, lookup_delete in Hl. discriminate.
+      * rewrite lookup_delete_ne in Hl by assumption.
         apply issued_at_snoc; [apply IH; assumption | discriminate].
+    + apply issued_at_snoc; [apply IH; assumption | discriminate].
+    + apply issued_at_snoc; [apply IH; assumption | discriminate].
     + (* a reply with tag t0 was delivered *)
-      simp_st in Hl. destruct (N.eq_dec t0 t) as [->|Hne].
-      * rewrite lookup_delete in Hl. discriminate.
+      destruct (N.eq_dec t0 t) as [Heq|Hne].
+      * subst t0. rewrite lookup_delete in Hl. discriminate.
       * rewrite lookup_delete_ne in Hl by assumption.
         apply issued_at_snoc; [apply IH; assumption|]. intros r' Heq. inversion Heq. congruence.
     + rewrite H in Hl.
-      apply issued_at_snoc; [apply IH; assumption|]. intros r Heq. exact (H5 _ _ Heq).
+      apply issued_at_snoc; [apply IH; assumption|]. intros r. apply flag_event_not_resp. assumption.
 Qed.
 
 (* C05_own_reply *)
 Theorem own_reply : forall evs c r,
   In (ODeliver c r) (trace evs) ->
   exists evs1 evs2 evs3 t mt,
-    evs = evs1 ++ EReq c mt true :: evs2 ++ EResp t r :: evs3 /\
-    snd (hstep (fst (run evs1)) (EReq c mt true)) = [OFrame t c mt] /\
-    no_resp t evs2.
+    evs = evs1 ++ EReq c mt :: evs2 ++ EResp t r :: evs3 /\
+    req_allocates (fst (run evs1)) t /\ no_resp t evs2.
 Proof.
   induction evs as [|e evs IH] using rev_ind; intros c r Hin.
   - destruct Hin.
   - rewrite trace_snoc in Hin. apply in_app_or in Hin as [Hin|Hin].
-    + destruct (IH c r Hin) as (evs1 & evs2 & evs3 & t & mt & -> & Hf & Hn).
+    + destruct (IH c r Hin) as (evs1 & evs2 & evs3 & t & mt & Heq & Hf & Hn). subst evs.
       exists evs1, evs2, (evs3 ++ [e]), t, mt. split; [|tauto].
       rewrite <- !app_assoc. cbn [app]. rewrite <- app_assoc. reflexivity.
     + pose proof (hist_inv_all evs) as Hinv. unfold hist_inv in Hinv.
       revert Hin. step_cases (fst (run evs)) e; intros Hin;
         try (destruct Hin as [Hin|[]]; discriminate); try (destruct Hin; fail).
       * destruct Hin as [Hin|[]]. inversion Hin; subst c0 r0.
-        destruct (Hinv H t c H0) as (evs1 & evs2 & mt & -> & Hf & Hn).
+        destruct (Hinv H t c H0) as (evs1 & evs2 & mt & Heq & Hf & Hn). subst evs.
         exists evs1, evs2, [], t, mt. split; [|tauto].
         rewrite <- app_assoc. reflexivity.
-      * destruct e; try (destruct Hin; fail).
-        destruct (exit_enabled (fst (run evs))); [destruct Hin as [Hin|[]]; discriminate | destruct Hin].
+      * apply (flag_event_outputs _ _ H7) in Hin. discriminate.
+Qed.
+
+(* every queued frame, hence every frame written, carries the tag allocated when its call's request was taken *)
+Definition job_origin (evs : list hevent) (w : wjob) : Prop :=
+  exists evs1 evs2, evs = evs1 ++ EReq (w_call w) (w_mt w) :: evs2 /\ req_allocates (fst (run evs1)) (w_tag w).
+
+Lemma job_origin_snoc : forall evs w e, job_origin evs w -> job_origin (evs ++ [e]) w.
+Proof.
+  intros evs w e (evs1 & evs2 & Heq & Hal). subst evs. exists evs1, (evs2 ++ [e]). split; [|assumption].
+  rewrite <- app_assoc. reflexivity.
+Qed.
+
+Lemma jobs_origin_all : forall evs w, In w (jobs (fst (run evs))) -> job_origin evs w.
+Proof.
+  induction evs as [|e evs IH] using rev_ind; intros w0 Hin.
+  - destruct Hin.
+  - rewrite state_snoc in Hin. revert Hin.
+    step_cases (fst (run evs)) e; unfold jobs; simp_st; intros Hin;
+      try (apply job_origin_snoc, IH; exact Hin).
+    + rewrite app_assoc in Hin. apply in_app_or in Hin as [Hin|[<-|[]]].
+      * apply job_origin_snoc, IH. exact Hin.
+      * exists evs, []. split; [reflexivity | split; assumption].
+    + apply job_origin_snoc, IH. unfold jobs. rewrite H0, H1. exact Hin.
+    + apply job_origin_snoc, IH. unfold jobs. rewrite H. right. exact Hin.
+    + apply job_origin_snoc, IH. unfold jobs. rewrite H0. right. exact Hin.
+    + apply job_origin_snoc, IH. unfold jobs. rewrite H0. right. exact Hin.
+    + apply job_origin_snoc, IH. unfold jobs. rewrite H0. right. exact Hin.
+    + apply job_origin_snoc, IH. unfold jobs. rewrite <- H1, <- H2. exact Hin.
+Qed.
+
+Theorem frame_origin : forall evs t c mt,
+  In (OFrame t c mt) (trace evs) ->
+  exists evs1 evs2, evs = evs1 ++ EReq c mt :: evs2 /\ req_allocates (fst (run evs1)) t.
+Proof.
+  induction evs as [|e evs IH] using rev_ind; intros t c mt Hin.
+  - destruct Hin.
+  - rewrite trace_snoc in Hin. apply in_app_or in Hin as [Hin|Hin].
+    + destruct (IH t c mt Hin) as (evs1 & evs2 & Heq & Hal). subst evs.
+      exists evs1, (evs2 ++ [e]). split; [|assumption]. rewrite <- app_assoc. reflexivity.
+    + revert Hin. step_cases (fst (run evs)) e; intros Hin;
+        try (destruct Hin as [Hin|[]]; discriminate); try (destruct Hin; fail).
+      * destruct Hin as [Hin|[]]. inversion Hin; subst.
+        change (job_origin (evs ++ [EWrote]) w).
+        apply job_origin_snoc. apply jobs_origin_all. unfold jobs. rewrite H. left. reflexivity.
+      * apply (flag_event_outputs _ _ H7) in Hin. discriminate.
 Qed.
 
 (* completeness of delivery while the loop runs: a reply whose tag is outstanding is handed over at once *)
@@ -111,37 +159,19 @@ Proof.
   intros st t r c Hr Hl. cbn [hstep]. rewrite Hr, Hl. simp_st. split; [reflexivity | apply lookup_delete].
 Qed.
 
-(* ---------------------------------------------------------------- at most one delivery per call *)
+(* ---------------------------------------------------------------- at most one reply and one error per call *)
 
-Definition dcalls (tr : list hout) : list N :=
-  flat_map (fun o => match o with ODeliver c _ => [c] | ODeliverErr c _ => [c] | _ => [] end) tr.
+Definition rcalls (tr : list hout) : list N :=
+  flat_map (fun o => match o with ODeliver c _ => [c] | _ => [] end) tr.
+Definition ecalls (tr : list hout) : list N :=
+  flat_map (fun o => match o with ODeliverErr c _ => [c] | _ => [] end) tr.
 
-Lemma dcalls_app : forall a b, dcalls (a ++ b) = dcalls a ++ dcalls b.
-Proof. intros. unfold dcalls. apply flat_map_app. Qed.
-
+Lemma rcalls_app : forall a b, rcalls (a ++ b) = rcalls a ++ rcalls b.
+Proof. intros. unfold rcalls. apply flat_map_app. Qed.
+Lemma ecalls_app : forall a b, ecalls (a ++ b) = ecalls a ++ ecalls b.
+Proof. intros. unfold ecalls. apply flat_map_app. Qed.
 Lemma req_calls_app : forall a b, req_calls (a ++ b) = req_calls a ++ req_calls b.
 Proof. intros. unfold req_calls. apply flat_map_app. Qed.
-
-Record once_inv (evs : list hevent) : Prop := {
-  oi_range : forall t c, h_out (fst (run evs)) !! t = Some c -> In c (req_calls evs);
-  oi_deliv : forall c, In c (dcalls (trace evs)) -> In c (req_calls evs);
-  oi_sep   : forall t c, h_out (fst (run evs)) !! t = Some c -> ~ In c (dcalls (trace evs));
-  oi_nodup : NoDup (dcalls (trace evs));
-  oi_inj   : forall t1 t2 c, h_out (fst (run evs)) !! t1 = Some c -> h_out (fst (run evs)) !! t2 = Some c -> t1 = t2 }.
-
-Lemma NoDup_snoc : forall (l : list N) x, NoDup l -> ~ In x l -> NoDup (l ++ [x]).
-Proof.
-  intros l x Hl Hx. apply NoDup_rev in Hl. rewrite <- (rev_involutive (l ++ [x])).
-  apply NoDup_rev. rewrite rev_app_distr. cbn. constructor; [|assumption].
-  intros Hin. apply in_rev in Hin. contradiction.
-Qed.
-
-Lemma NoDup_app_l : forall (a b : list N), NoDup (a ++ b) -> NoDup a.
-Proof.
-  induction a as [|x a IH]; cbn; intros b H; [constructor|].
-  inversion H as [|? ? Hx Hr]; subst. constructor; [|eauto].
-  intros Hin. apply Hx. apply in_or_app. auto.
-Qed.
 
 Lemma NoDup_snoc_fresh : forall (a : list N) c, NoDup (a ++ [c]) -> ~ In c a.
 Proof.
@@ -151,93 +181,189 @@ Proof.
   - exact (IH c Hr Hin).
 Qed.
 
-Ltac go_left := first [ apply in_or_app; left | idtac ].
+Lemma flag_event_rcalls : forall st e, is_flag_event e = true ->
+  rcalls (match e with EExit => if exit_enabled st then [OClosed] else [] | _ => [] end) = [] /\
+  ecalls (match e with EExit => if exit_enabled st then [OClosed] else [] | _ => [] end) = [] /\
+  req_calls [e] = [].
+Proof. intros st e He. destruct e; try discriminate; try (repeat split; reflexivity). destruct (exit_enabled st); repeat split; reflexivity. Qed.
 
-Lemma once_inv_all : forall evs, NoDup (req_calls evs) -> once_inv evs.
+(* replies *)
+Record once_r (st : hstate) (reqs dr : list N) : Prop := {
+  or_range : forall t c, h_out st !! t = Some c -> In c reqs;
+  or_deliv : forall c, In c dr -> In c reqs;
+  or_sep   : forall t c, h_out st !! t = Some c -> ~ In c dr;
+  or_nodup : NoDup dr;
+  or_inj   : forall t1 t2 c, h_out st !! t1 = Some c -> h_out st !! t2 = Some c -> t1 = t2 }.
+
+Lemma once_r_same_out : forall st st' reqs dr,
+  h_out st' = h_out st -> once_r st reqs dr -> once_r st' reqs dr.
+Proof. intros st st' reqs dr Ho [A B C D E]. constructor; try rewrite Ho; assumption. Qed.
+
+Lemma once_r_step : forall st e reqs dr,
+  once_r st reqs dr -> (forall c mt, e = EReq c mt -> ~ In c reqs) ->
+  once_r (fst (hstep st e)) (reqs ++ req_calls [e]) (dr ++ rcalls (snd (hstep st e))).
+Proof.
+  intros st e reqs dr Hinv Hfresh. pose proof Hinv as [Hrange Hdeliv Hsep Hnodup Hinj].
+  step_cases st e; cbn [rcalls flat_map app]; rewrite ?app_nil_r.
+  - (* idle *) destruct e; cbn [req_calls flat_map app]; rewrite ?app_nil_r; try assumption.
+    constructor; eauto using in_or_app.
+  - cbn [req_calls flat_map app]. constructor; eauto using in_or_app.
+  - (* request taken *)
+    cbn [req_calls flat_map app]. specialize (Hfresh c mt eq_refl). constructor; simp_st.
+    + intros t' c' Hl. apply in_or_app. destruct (N.eq_dec t t') as [Heq|Hne].
+      * subst t'. rewrite lookup_insert in Hl. inversion Hl. right. left. reflexivity.
+      * rewrite lookup_insert_ne in Hl by assumption. left. eauto.
+    + intros c' Hin. apply in_or_app. left. auto.
+    + intros t' c' Hl Hin. destruct (N.eq_dec t t') as [Heq|Hne].
+      * subst t'. rewrite lookup_insert in Hl. inversion Hl; subst c'. auto.
+      * rewrite lookup_insert_ne in Hl by assumption. eapply Hsep; eauto.
+    + assumption.
+    + intros t1 t2 c' H1 H2.
+      destruct (N.eq_dec t t1) as [E1|Hn1]; destruct (N.eq_dec t t2) as [E2|Hn2]; try congruence.
+      * subst t1. rewrite lookup_insert in H1. rewrite lookup_insert_ne in H2 by assumption. inversion H1; subst c'.
+        exfalso. eauto.
+      * subst t2. rewrite lookup_insert in H2. rewrite lookup_insert_ne in H1 by assumption. inversion H2; subst c'.
+        exfalso. eauto.
+      * rewrite lookup_insert_ne in H1, H2 by assumption. eauto.
+  - cbn [req_calls flat_map app]. rewrite ?app_nil_r. eapply once_r_same_out; [|eassumption]. reflexivity.
+  - cbn [req_calls flat_map app]. rewrite ?app_nil_r. eapply once_r_same_out; [|eassumption]. reflexivity.
+  - (* write failed, tag released *)
+    cbn [req_calls flat_map app]. rewrite ?app_nil_r. constructor; simp_st.
+    + intros t' c' Hl. destruct (N.eq_dec (w_tag w) t') as [Heq|Hne]; [rewrite Heq, lookup_delete in Hl; discriminate|].
+      rewrite lookup_delete_ne in Hl by assumption. eauto.
+    + assumption.
+    + intros t' c' Hl. destruct (N.eq_dec (w_tag w) t') as [Heq|Hne]; [rewrite Heq, lookup_delete in Hl; discriminate|].
+      rewrite lookup_delete_ne in Hl by assumption. eauto.
+    + assumption.
+    + intros t1 t2 c' H1' H2'.
+      destruct (N.eq_dec (w_tag w) t1) as [Heq|Hn1]; [rewrite Heq, lookup_delete in H1'; discriminate|].
+      destruct (N.eq_dec (w_tag w) t2) as [Heq|Hn2]; [rewrite Heq, lookup_delete in H2'; discriminate|].
+      rewrite lookup_delete_ne in H1', H2' by assumption. eauto.
+  - cbn [req_calls flat_map app]. rewrite ?app_nil_r. eapply once_r_same_out; [|eassumption]. reflexivity.
+  - cbn [req_calls flat_map app]. rewrite ?app_nil_r. eapply once_r_same_out; [|eassumption]. reflexivity.
+  - (* reply delivered *)
+    cbn [req_calls flat_map app]. rewrite ?app_nil_r. constructor; simp_st.
+    + intros t' c' Hl. destruct (N.eq_dec t t') as [Heq|Hne]; [subst t'; rewrite lookup_delete in Hl; discriminate|].
+      rewrite lookup_delete_ne in Hl by assumption. eauto.
+    + intros c' Hin. apply in_app_or in Hin as [Hin|[<-|[]]]; eauto.
+    + intros t' c' Hl Hin. destruct (N.eq_dec t t') as [Heq|Hne]; [subst t'; rewrite lookup_delete in Hl; discriminate|].
+      rewrite lookup_delete_ne in Hl by assumption.
+      apply in_app_or in Hin as [Hin|[<-|[]]]; [eapply Hsep; eauto|].
+      apply Hne. eapply Hinj; eauto.
+    + apply NoDup_snoc_N; [assumption|]. eapply Hsep; eauto.
+    + intros t1 t2 c' H1' H2'.
+      destruct (N.eq_dec t t1) as [Heq|Hn1]; [subst t1; rewrite lookup_delete in H1'; discriminate|].
+      destruct (N.eq_dec t t2) as [Heq|Hn2]; [subst t2; rewrite lookup_delete in H2'; discriminate|].
+      rewrite lookup_delete_ne in H1', H2' by assumption. eauto.
+  - destruct (flag_event_rcalls st e H7) as (Hr & _ & Hq). rewrite Hr, Hq, !app_nil_r.
+    eapply once_r_same_out; eassumption.
+Qed.
+
+Lemma once_r_all : forall evs, NoDup (req_calls evs) ->
+  once_r (fst (run evs)) (req_calls evs) (rcalls (trace evs)).
 Proof.
   induction evs as [|e evs IH] using rev_ind; intros Hnd.
   - constructor; cbn; try tauto; try (intros; rewrite lookup_empty in *; discriminate); try constructor.
   - rewrite req_calls_app in Hnd.
-    assert (Hnd0 : NoDup (req_calls evs)) by (apply NoDup_app_l in Hnd; assumption).
-    specialize (IH Hnd0). destruct IH as [Hrange Hdeliv Hsep Hnodup Hinj].
-    assert (Hfresh : forall c mt w, e = EReq c mt w -> ~ In c (req_calls evs)).
-    { intros c mt w Heq. subst e. cbn in Hnd. apply NoDup_snoc_fresh. assumption. }
-    constructor; rewrite ?state_snoc, ?trace_snoc, ?dcalls_app, ?req_calls_app;
-      revert Hfresh; step_cases (fst (run evs)) e; intros Hfresh; simp_st;
-      cbn [dcalls flat_map app req_calls]; rewrite ?app_nil_r.
-    (* oi_range *)
-    + intros t c Hl. go_left. eauto.
-    + intros t c' Hl. go_left. eauto.
-    + intros t' c' Hl. apply in_or_app. destruct (N.eq_dec t t') as [->|Hne].
-      * rewrite lookup_insert in Hl. inversion Hl. right. left. reflexivity.
-      * rewrite lookup_insert_ne in Hl by assumption. left. eauto.
-    + intros t' c' Hl. go_left. destruct (N.eq_dec t t') as [->|Hne].
-      * rewrite lookup_delete in Hl. discriminate.
-      * rewrite lookup_delete_ne, lookup_insert_ne in Hl by assumption. eauto.
-    + intros t' c' Hl. go_left. destruct (N.eq_dec t t') as [->|Hne].
-      * rewrite lookup_delete in Hl. discriminate.
-      * rewrite lookup_delete_ne in Hl by assumption. eauto.
-    + intros t c Hl. rewrite H in Hl. go_left. eauto.
-    (* oi_deliv *)
-    + intros c Hin. go_left. auto.
-    + intros c' Hin. apply in_or_app. apply in_app_or in Hin as [Hin|[<-|[]]]; [left; auto | right; left; reflexivity].
-    + intros c' Hin. go_left. auto.
-    + intros c' Hin. apply in_or_app. apply in_app_or in Hin as [Hin|[<-|[]]]; [left; auto | right; left; reflexivity].
-    + intros c' Hin. go_left. apply in_app_or in Hin as [Hin|[<-|[]]]; [auto | eauto].
-    + intros c Hin. go_left. apply Hdeliv.
-      destruct e; rewrite ?app_nil_r in Hin; try assumption.
-      destruct (exit_enabled (fst (run evs))); cbn in Hin; rewrite ?app_nil_r in Hin; assumption.
-    (* oi_sep *)
-    + intros t c Hl. eauto.
-    + intros t c' Hl Hin. apply in_app_or in Hin as [Hin|[<-|[]]]; [eapply Hsep; eauto|].
-      eapply (Hfresh c mt wok eq_refl). eauto.
-    + intros t' c' Hl Hin. destruct (N.eq_dec t t') as [->|Hne].
-      * rewrite lookup_insert in Hl. inversion Hl; subst c'.
-        eapply (Hfresh c mt true eq_refl). auto.
-      * rewrite lookup_insert_ne in Hl by assumption. eapply Hsep; eauto.
-    + intros t' c' Hl Hin. destruct (N.eq_dec t t') as [->|Hne]; [rewrite lookup_delete in Hl; discriminate|].
-      rewrite lookup_delete_ne, lookup_insert_ne in Hl by assumption.
-      apply in_app_or in Hin as [Hin|[<-|[]]]; [eapply Hsep; eauto|].
-      eapply (Hfresh c mt false eq_refl). eauto.
-    + intros t' c' Hl Hin. destruct (N.eq_dec t t') as [->|Hne]; [rewrite lookup_delete in Hl; discriminate|].
-      rewrite lookup_delete_ne in Hl by assumption.
-      apply in_app_or in Hin as [Hin|[<-|[]]]; [eapply Hsep; eauto|].
-      apply Hne. eapply Hinj; eauto.
-    + intros t c Hl Hin. rewrite H in Hl. eapply Hsep; [eassumption|].
-      destruct e; rewrite ?app_nil_r in Hin; try assumption.
-      destruct (exit_enabled (fst (run evs))); cbn in Hin; rewrite ?app_nil_r in Hin; assumption.
-    (* oi_nodup *)
-    + assumption.
-    + apply NoDup_snoc; [assumption|]. intros Hin. eapply (Hfresh c mt wok eq_refl). auto.
-    + assumption.
-    + apply NoDup_snoc; [assumption|]. intros Hin. eapply (Hfresh c mt false eq_refl). auto.
-    + apply NoDup_snoc; [assumption|]. eapply Hsep; eauto.
-    + destruct e; rewrite ?app_nil_r; try assumption.
-      destruct (exit_enabled (fst (run evs))); cbn; rewrite ?app_nil_r; assumption.
-    (* oi_inj *)
-    + eauto.
-    + eauto.
-    + intros t1 t2 c' H1 H2.
-      destruct (N.eq_dec t t1) as [E1|Hn1]; destruct (N.eq_dec t t2) as [E2|Hn2]; try congruence.
-      * subst t1. rewrite lookup_insert in H1. rewrite lookup_insert_ne in H2 by assumption. inversion H1; subst c'.
-        exfalso. eapply (Hfresh c mt true eq_refl). eauto.
-      * subst t2. rewrite lookup_insert in H2. rewrite lookup_insert_ne in H1 by assumption. inversion H2; subst c'.
-        exfalso. eapply (Hfresh c mt true eq_refl). eauto.
-      * rewrite lookup_insert_ne in H1, H2 by assumption. eauto.
-    + intros t1 t2 c' H1 H2.
-      destruct (N.eq_dec t t1) as [->|Hn1]; [rewrite lookup_delete in H1; discriminate|].
-      destruct (N.eq_dec t t2) as [->|Hn2]; [rewrite lookup_delete in H2; discriminate|].
-      rewrite lookup_delete_ne, lookup_insert_ne in H1, H2 by assumption. eauto.
-    + intros t1 t2 c' H1 H2.
-      destruct (N.eq_dec t t1) as [->|Hn1]; [rewrite lookup_delete in H1; discriminate|].
-      destruct (N.eq_dec t t2) as [->|Hn2]; [rewrite lookup_delete in H2; discriminate|].
-      rewrite lookup_delete_ne in H1, H2 by assumption. eauto.
-    + intros t1 t2 c H1' H2'. rewrite H in H1', H2'. eauto.
+    assert (Hnd0 : NoDup (req_calls evs)) by (apply NoDup_app_l_N in Hnd; assumption).
+    rewrite state_snoc, trace_snoc, rcalls_app, req_calls_app.
+    apply once_r_step; [apply IH; assumption|].
+    intros c mt Heq. subst e. cbn in Hnd. apply NoDup_snoc_fresh. assumption.
 Qed.
 
-(* C05_once: over both channels together each call is handed at most one item *)
-Theorem delivered_once : forall evs, NoDup (req_calls evs) -> NoDup (dcalls (trace evs)).
-Proof. intros evs H. exact (oi_nodup evs (once_inv_all evs H)). Qed.
+(* errors *)
+Record once_e (st : hstate) (reqs de : list N) : Prop := {
+  oe_jobs_nodup : NoDup (map w_call (jobs st));
+  oe_jobs_reqs  : forall w, In w (jobs st) -> In (w_call w) reqs;
+  oe_deliv      : forall c, In c de -> In c reqs;
+  oe_sep        : forall w, In w (jobs st) -> ~ In (w_call w) de;
+  oe_nodup      : NoDup de }.
+
+Lemma once_e_tail : forall st st' reqs de w,
+  jobs st = w :: jobs st' -> once_e st reqs de -> once_e st' reqs de.
+Proof.
+  intros st st' reqs de w Hj [A B C D E]. rewrite Hj in *. cbn [map] in A.
+  inversion A; subst. constructor; auto using in_cons.
+Qed.
+
+Lemma once_e_tail_err : forall st st' reqs de w,
+  jobs st = w :: jobs st' -> once_e st reqs de -> once_e st' reqs (de ++ [w_call w]).
+Proof.
+  intros st st' reqs de w Hj [A B C D E]. rewrite Hj in *. cbn [map] in A.
+  inversion A as [|? ? Hx Hr]; subst. constructor; auto using in_cons.
+  - intros c Hin. apply in_app_or in Hin as [Hin|[<-|[]]]; [auto | apply B; left; reflexivity].
+  - intros w' Hw' Hin. apply in_app_or in Hin as [Hin|[Heq|[]]].
+    + exact (D w' (in_cons _ _ _ Hw') Hin).
+    + apply Hx. rewrite Heq. apply in_map. assumption.
+  - apply NoDup_snoc_N; [assumption|]. apply D. left. reflexivity.
+Qed.
+
+Lemma once_e_same_jobs : forall st st' reqs de,
+  jobs st' = jobs st -> once_e st reqs de -> once_e st' reqs de.
+Proof. intros st st' reqs de Hj [A B C D E]. constructor; try rewrite Hj; assumption. Qed.
+
+Lemma once_e_step : forall st e reqs de,
+  once_e st reqs de -> (forall c mt, e = EReq c mt -> ~ In c reqs) ->
+  once_e (fst (hstep st e)) (reqs ++ req_calls [e]) (de ++ ecalls (snd (hstep st e))).
+Proof.
+  intros st e reqs de Hinv Hfresh. pose proof Hinv as [Hjn Hjr Hdeliv Hsep Hnodup].
+  step_cases st e; cbn [ecalls flat_map app]; rewrite ?app_nil_r.
+  - destruct e; cbn [req_calls flat_map app]; rewrite ?app_nil_r; try assumption.
+    constructor; eauto using in_or_app.
+  - (* allocation failed: the error goes to the fresh call *)
+    cbn [req_calls flat_map app]. specialize (Hfresh c mt eq_refl). constructor.
+    + assumption.
+    + intros w Hw. apply in_or_app. left. auto.
+    + intros c' Hin. apply in_or_app. apply in_app_or in Hin as [Hin|[<-|[]]]; [left; auto | right; left; reflexivity].
+    + intros w Hw Hin. apply in_app_or in Hin as [Hin|[Heq|[]]]; [exact (Hsep w Hw Hin)|].
+      apply Hfresh. rewrite Heq. auto.
+    + apply NoDup_snoc_N; [assumption|]. intros Hin. apply Hfresh. auto.
+  - (* request queued *)
+    cbn [req_calls flat_map app]. specialize (Hfresh c mt eq_refl).
+    assert (Hj : jobs (with_data st (<[t:=c]> (h_out st)) t (h_pend st ++ [{| w_call := c; w_tag := t; w_mt := mt |}]) (h_writer st))
+                 = jobs st ++ [{| w_call := c; w_tag := t; w_mt := mt |}]).
+    { unfold jobs. simp_st. rewrite app_assoc. reflexivity. }
+    constructor; rewrite ?Hj.
+    + rewrite map_app. cbn [map w_call]. apply NoDup_snoc_N; [assumption|].
+      intros Hin. apply in_map_iff in Hin as (w & Heq & Hw). apply Hfresh. rewrite <- Heq. auto.
+    + intros w Hw. apply in_or_app. apply in_app_or in Hw as [Hw|[<-|[]]]; [left; auto | right; left; reflexivity].
+    + intros c' Hin. apply in_or_app. left. auto.
+    + intros w Hw Hin. apply in_app_or in Hw as [Hw|[<-|[]]]; [exact (Hsep w Hw Hin)|].
+      cbn in Hin. apply Hfresh. auto.
+    + assumption.
+  - cbn [req_calls flat_map app]. rewrite ?app_nil_r. eapply once_e_same_jobs; [|eassumption].
+    unfold jobs. simp_st. rewrite H0, H1. reflexivity.
+  - cbn [req_calls flat_map app]. rewrite ?app_nil_r. eapply (once_e_tail st _ reqs de w); [|eassumption].
+    unfold jobs. simp_st. rewrite H. reflexivity.
+  - cbn [req_calls flat_map app]. rewrite ?app_nil_r. eapply (once_e_tail_err st _ reqs de w); [|eassumption].
+    unfold jobs. simp_st. rewrite H0. reflexivity.
+  - cbn [req_calls flat_map app]. rewrite ?app_nil_r. eapply (once_e_tail_err st _ reqs de w); [|eassumption].
+    unfold jobs. simp_st. rewrite H0. reflexivity.
+  - cbn [req_calls flat_map app]. rewrite ?app_nil_r. eapply (once_e_tail st _ reqs de w); [|eassumption].
+    unfold jobs. simp_st. rewrite H0. reflexivity.
+  - cbn [req_calls flat_map app]. rewrite ?app_nil_r. eapply once_e_same_jobs; [|eassumption]. reflexivity.
+  - destruct (flag_event_rcalls st e H7) as (_ & Hr & Hq). rewrite Hr, Hq, !app_nil_r.
+    eapply once_e_same_jobs; [|eassumption]. unfold jobs. rewrite H1, H2. reflexivity.
+Qed.
+
+Lemma once_e_all : forall evs, NoDup (req_calls evs) ->
+  once_e (fst (run evs)) (req_calls evs) (ecalls (trace evs)).
+Proof.
+  induction evs as [|e evs IH] using rev_ind; intros Hnd.
+  - constructor; cbn; try tauto; constructor.
+  - rewrite req_calls_app in Hnd.
+    assert (Hnd0 : NoDup (req_calls evs)) by (apply NoDup_app_l_N in Hnd; assumption).
+    rewrite state_snoc, trace_snoc, ecalls_app, req_calls_app.
+    apply once_e_step; [apply IH; assumption|].
+    intros c mt Heq. subst e. cbn in Hnd. apply NoDup_snoc_fresh. assumption.
+Qed.
+
+(* C05_once: each call is handed at most one reply and at most one error *)
+Theorem delivered_once : forall evs, NoDup (req_calls evs) ->
+  NoDup (rcalls (trace evs)) /\ NoDup (ecalls (trace evs)).
+Proof.
+  intros evs H. split; [exact (or_nodup _ _ _ (once_r_all evs H)) | exact (oe_nodup _ _ _ (once_e_all evs H))].
+Qed.
 
 (* ---------------------------------------------------------------- send and the session methods *)
 
